@@ -257,97 +257,128 @@ private theorem run_append (dp : Bool) (s : MonState) (a b : List Ev) :
 /-- invariant kept between rounds of an eligible session. -/
 private def Elig (s s' : MonState) : Prop := s'.ok = s.ok ∧ s'.eligible = true
 
-private theorem run_polls (dp : Bool) (s : MonState) (ps : List (Option Nat)) (hk : s.k ≠ 0) :
-    (run dp s (ps.map Ev.epoch)).ok = s.ok ∧ (run dp s (ps.map Ev.epoch)).eligible = s.eligible := by
-  induction ps generalizing s with
-  | nil => simp [run]
+/-- …with the outcome of the round: a round after which the loop goes on leaves no awaited epoch. -/
+private def Elig2 (s s' : MonState) (o : Outcome) : Prop :=
+  s'.ok = s.ok ∧ s'.eligible = true ∧ ((o = .proven ∨ o = .idle) → s'.pending = none)
+
+private theorem waitLoop_ne_idle (E : Nat) (ps : List (Option Nat)) : (waitLoop E ps).2 ≠ .idle := by
+  induction ps with
+  | nil => simp [waitLoop]
   | cons p ps ih =>
-    simp only [List.map_cons, run, List.foldl_cons]
-    have : monStep dp s (Ev.epoch p) = { s with k := s.k + 1 } := by simp [monStep, hk]
-    rw [this]
-    exact ih { s with k := s.k + 1 } (by simp)
+    cases p with
+    | none => simp [waitLoop]
+    | some v => by_cases hv : v ≥ E <;> simp [waitLoop, hv, ih]
+
+private theorem run_polls (dp : Bool) (E : Nat) (ps : List (Option Nat)) (s : MonState)
+    (hk : s.k ≠ 0) (hp : s.pending = some E) :
+    (run dp s ((ps.take (waitLoop E ps).1).map Ev.epoch)).ok = s.ok ∧
+    (run dp s ((ps.take (waitLoop E ps).1).map Ev.epoch)).eligible = s.eligible ∧
+    ((waitLoop E ps).2 = .proven → (run dp s ((ps.take (waitLoop E ps).1).map Ev.epoch)).pending = none) := by
+  induction ps generalizing s with
+  | nil => simp [waitLoop, run]
+  | cons p ps ih =>
+    cases p with
+    | none => simp [waitLoop, run, monStep, hk]
+    | some v =>
+      by_cases hv : v ≥ E
+      · simp [waitLoop, hv, run, monStep, hk, hp, clearPending]
+      · simp only [waitLoop, hv, if_false, List.take_succ_cons, List.map_cons, run, List.foldl_cons]
+        have hstep : monStep dp s (Ev.epoch (some v)) = { s with k := s.k + 1 } := by
+          simp [monStep, hk, hp, clearPending, hv]
+        rw [hstep]
+        exact ih { s with k := s.k + 1 } (by simp) (by simpa using hp)
 
 private theorem run_fetch (dp : Bool) (t : MonState) (first n : Nat) :
     run dp t (if n = 0 then [] else [Ev.fetch first n]) = t := by
   split <;> rfl
 
-private theorem run_prove (dp : Bool) (hf : List Nat) (first last E h : Nat) (sub : Option Bool)
+private theorem run_prove (dp : Bool) (hf : List Nat) (first last ce h : Nat) (sub : Option Bool)
     (polls : List (Option Nat)) (s : MonState) (h4 : s.k = 1) (h5 : s.eligible = true)
-    (good : submitGood dp s (!dp) first (headerCount first last) = true) :
-    Elig s (run dp s (prove dp hf first last E h sub polls).1) := by
+    (hce : s.ce = some ce) (hpn : s.pending = none)
+    (good : h ≥ last → submitGood dp s (!dp) first (headerCount first last) = true) :
+    Elig2 s (run dp s (prove dp hf first last (target ce) h sub polls).1)
+      (prove dp hf first last (target ce) h sub polls).2.1 := by
   by_cases hm : h ≥ last
-  · cases hff : firstFail hf first (headerCount first last) with
-    | some k => simp [prove, hm, hff, run, monStep, Elig, h5]
+  · have good := good hm
+    cases hff : firstFail hf first (headerCount first last) with
+    | some k => simp [prove, hm, hff, run, monStep, Elig2, h5]
     | none =>
       cases sub with
       | none =>
         simp only [prove, hm, hff, if_true]
-        rw [run_fetch]; exact ⟨rfl, h5⟩
+        rw [run_fetch]; simp [Elig2, h5]
       | some b =>
-        rw [prove_shape dp hf first last E h b polls hm hff, run_append, run_append, run_fetch]
-        have hk : (run dp s [Ev.submit (!dp) first (headerCount first last)]).k ≠ 0 := by
-          simp [run, monStep, h4]
-        have hp := run_polls dp (run dp s [Ev.submit (!dp) first (headerCount first last)])
-        have hs1 : (run dp s [Ev.submit (!dp) first (headerCount first last)]).ok = s.ok := by
-          simp [run, monStep, good]
-        have hs2 : (run dp s [Ev.submit (!dp) first (headerCount first last)]).eligible = true := by
-          simp [run, monStep, h5]
         cases b
-        · simp only [Bool.false_eq_true, if_false]
-          exact ⟨hs1, hs2⟩
-        · simp only [if_true]
-          have := hp (List.take (waitLoop E polls).1 polls) hk
-          exact ⟨this.1.trans hs1, this.2.trans hs2⟩
-  · simp [prove, hm, run, Elig, h5]
+        · simp only [prove, hm, hff, if_true]
+          rw [run_append, run_fetch]
+          simp [Elig2, run, monStep, good, h5]
+        · simp only [prove, hm, hff, if_true]
+          rw [run_append, run_append, run_fetch]
+          have ht : run dp s [Ev.submit (!dp) first (headerCount first last)] =
+              { s with ok := s.ok && submitGood dp s (!dp) first (headerCount first last), h := none,
+                       pending := some (target ce) } := by
+            simp [run, monStep, hce]
+          rw [ht]
+          have hp := run_polls dp (target ce) polls
+            { s with ok := s.ok && submitGood dp s (!dp) first (headerCount first last), h := none,
+                     pending := some (target ce) } (by simp [h4]) rfl
+          refine ⟨by simpa [good] using hp.1, by simpa [h5] using hp.2.1, ?_⟩
+          intro ho
+          rcases ho with ho | ho
+          · exact hp.2.2 ho
+          · exact absurd ho (waitLoop_ne_idle _ _)
+  · simp [prove, hm, run, Elig2, h5, hpn]
 
-private theorem run_proveNext (dp : Bool) (w : World) (s : MonState) (he : s.eligible = true) :
-    Elig s (run dp s (proveNext dp w).1) := by
+private theorem run_proveNext (dp : Bool) (w : World) (s : MonState) (he : s.eligible = true)
+    (hpn : s.pending = none) :
+    Elig2 s (run dp s (proveNext dp w).1) (proveNext dp w).2.1 := by
   simp only [proveNext]
   rcases w.heights with _ | ⟨a, hs⟩
-  · simp [run, Elig, he]
+  · simp [run, Elig2, he]
   · cases a with
-    | none => simp [run, monStep, Elig, he]
+    | none => simp [run, monStep, Elig2, he, hpn]
     | some h =>
       rcases w.epochs with _ | ⟨b, es⟩
-      · simp [run, monStep, Elig, he]
+      · simp [run, monStep, Elig2, he, hpn]
       · cases b with
-        | none => simp [run, monStep, Elig, he]
+        | none => simp [run, monStep, Elig2, he, hpn]
         | some ce =>
           rcases w.lens with _ | ⟨c, ls⟩
-          · simp [run, monStep, Elig, he]
+          · simp [run, monStep, Elig2, he, hpn]
           · cases c with
-            | none => simp [run, monStep, Elig, he]
+            | none => simp [run, monStep, Elig2, he, hpn]
             | some L =>
               simp only []
               rw [run_append]
-              have hm' : ∀ hm : h ≥ (window ce L).2, True := fun _ => trivial
-              by_cases hm : h ≥ (window ce L).2
-              · have := run_prove dp w.hdrFail (window ce L).1 (window ce L).2 (target ce) h
-                  w.submits.head? es
-                  (run dp s [Ev.height (some h), Ev.epoch (some ce), Ev.len (some L)])
-                  (by simp [run, monStep]) (by simp [run, monStep, he])
-                  (by simp [run, monStep, submitGood, he, hm])
-                obtain ⟨t1, t2⟩ := this
-                refine ⟨?_, t2⟩
-                rw [t1]; simp [run, monStep]
-              · rw [not_mined_idle dp w.hdrFail _ _ _ h _ _ (Nat.not_le.mp hm)]
-                simp [run, monStep, Elig, he]
+              have := run_prove dp w.hdrFail (window ce L).1 (window ce L).2 ce h
+                w.submits.head? es
+                (run dp s [Ev.height (some h), Ev.epoch (some ce), Ev.len (some L)])
+                (by simp [run, monStep]) (by simp [run, monStep, he]) (by simp [run, monStep])
+                (by simp [run, monStep, hpn])
+                (by intro hm; simp [run, monStep, submitGood, he, hm])
+              obtain ⟨t1, t2, t3⟩ := this
+              refine ⟨?_, t2, t3⟩
+              rw [t1]; simp [run, monStep, hpn]
 
-private theorem run_proveLoop (dp : Bool) (fuel : Nat) (w : World) (s : MonState) (he : s.eligible = true) :
+private theorem run_proveLoop (dp : Bool) (fuel : Nat) (w : World) (s : MonState)
+    (he : s.eligible = true) (hpn : s.pending = none) :
     Elig s (run dp s (proveLoop dp fuel w).1) := by
   induction fuel generalizing w s with
   | zero => simp [proveLoop, run, Elig, he]
   | succ n ih =>
     simp only [proveLoop]
-    have h1 := run_proveNext dp w s he
-    split
-    · simp only []; rw [run_append]
-      have h2 := ih (proveNext dp w).2.2 (run dp s (proveNext dp w).1) h1.2
+    have h1 := run_proveNext dp w s he hpn
+    cases ho : (proveNext dp w).2.1
+    · rw [ho] at h1
+      simp only []; rw [run_append]
+      have h2 := ih (proveNext dp w).2.2 (run dp s (proveNext dp w).1) h1.2.1 (h1.2.2 (Or.inl rfl))
       exact ⟨h2.1.trans h1.1, h2.2⟩
-    · simp only []; rw [run_append]
-      have h2 := ih (proveNext dp w).2.2 (run dp s (proveNext dp w).1) h1.2
+    · rw [ho] at h1
+      simp only []; rw [run_append]
+      have h2 := ih (proveNext dp w).2.2 (run dp s (proveNext dp w).1) h1.2.1 (h1.2.2 (Or.inr rfl))
       exact ⟨h2.1.trans h1.1, h2.2⟩
-    · exact h1
+    · exact ⟨h1.1, h1.2.1⟩
+    · exact ⟨h1.1, h1.2.1⟩
 
 private theorem run_session (dp : Bool) (fuel : Nat) (w : World) (s : MonState) :
     (run dp s (session dp fuel w).1).ok = s.ok := by
@@ -362,11 +393,12 @@ private theorem run_session (dp : Bool) (fuel : Nat) (w : World) (s : MonState) 
         · simp only []
           rw [run_append]
           have h0 : (run dp s [Ev.ready Ans.t, authEv dp Ans.t]).eligible = true ∧
-              (run dp s [Ev.ready Ans.t, authEv dp Ans.t]).ok = s.ok := by
+              (run dp s [Ev.ready Ans.t, authEv dp Ans.t]).ok = s.ok ∧
+              (run dp s [Ev.ready Ans.t, authEv dp Ans.t]).pending = none := by
             cases dp <;> simp [run, monStep, authEv]
           have := run_proveLoop dp fuel ⟨rs, as, hs, es, ls, ss, hf⟩
-            (run dp s [Ev.ready Ans.t, authEv dp Ans.t]) h0.1
-          rw [this.1, h0.2]
+            (run dp s [Ev.ready Ans.t, authEv dp Ans.t]) h0.1 h0.2.2
+          rw [this.1, h0.2.1]
         · cases dp <;> simp [run, monStep, authEv]
         · cases dp <;> simp [run, monStep, authEv]
     · simp [run, monStep]
@@ -412,6 +444,10 @@ example : holds false [.ready .t, .authRefund .f, .height (some 4034), .epoch (s
 -- twice in one round
 example : holds false [.ready .t, .authRefund .t, .height (some 4034), .epoch (some 1), .len (some 3),
     .submit true 4029 6, .submit true 4029 6] = false := by decide
+-- moving on after a poll below the submitted epoch, then submitting the same epoch again
+example : holds false [.ready .t, .authRefund .t, .height (some 4034), .epoch (some 1), .len (some 3),
+    .fetch 4029 6, .submit true 4029 6, .epoch (some 1), .height (some 4034), .epoch (some 1), .len (some 3),
+    .fetch 4029 6, .submit true 4029 6] = false := by decide
 -- the model itself on a two-epoch history
 example : (controlLoop false 5 3 ⟨[.t], [.t], [some 4034, some 6050], [some 1, some 2, some 2, some 3],
     [some 3, some 3], [true, true], []⟩).filter Ev.isSubmit = [.submit true 4029 6, .submit true 6045 6] := by
